@@ -76,11 +76,12 @@ type instRun struct {
 	out    []string
 	hcount int
 	// scheduling
-	resume chan struct{}
-	parked chan struct{} // signalled when the running call parks or finishes
-	busy   bool          // a call is suspended inside the host function
-	done   bool          // the running call finished
-	next   int
+	resume     chan struct{}
+	parked     chan struct{} // signalled when the running call parks or finishes
+	busy       bool          // a call is suspended inside the host function
+	done       bool          // the running call finished
+	next       int
+	listedOnly bool
 }
 
 func first(err error) string {
@@ -106,6 +107,8 @@ type world struct {
 	// streams, clocks and random source, no mount): what an instantiation derives from the configuration
 	// belongs to the instance, not to the value
 	oneConfig wazero.ModuleConfig
+	// listedOnly: oneConfig mounts one host directory that every instance only lists
+	listedOnly bool
 }
 
 func newRuntime(engine string, cache wazero.CompilationCache, w *world) wazero.Runtime {
@@ -196,6 +199,7 @@ func (w *world) instantiate(rt wazero.Runtime, bin []byte, root string, idx int)
 		panic(fmt.Sprintf("harness: instantiate: %v", err))
 	}
 	in.mod = mod
+	in.listedOnly = w.listedOnly
 	return in
 }
 
@@ -244,6 +248,12 @@ func snapshot(in *instRun) string {
 			foreign = append(foreign, string(n))
 		}
 	}
+	if in.listedOnly {
+		// the SAME unmodified host directory in both executions: the listing left in the buffer (names,
+		// order, cookies, bytes used) is part of the state
+		foreign = nil
+		fmt.Fprintf(&sb, "listing=%x ", sha256.Sum256(all[0x3f0:0x400+0x200]))
+	}
 	fmt.Fprintf(&sb, "pages=%d mem=%x foreign-directory-entries=%v cells=", mem.Size()/65536, sha256.Sum256(cp), foreign)
 	for c := 0; c < plan.NCells; c++ {
 		v, _ := mem.ReadUint32Le(uint32(8 * c))
@@ -280,10 +290,30 @@ func (c11) Run(t *tape.Tape, cfg sim.Config) (res sim.Result) {
 		o.ReaddirHeavy = true
 		o.HostTags = 4
 	}
+	// class one-config-value, sometimes: the one ModuleConfig value carries a read-write directory mount,
+	// which every instance only lists (through its pre-opened descriptor): the listings of one instance
+	// must not depend on how far another instance has read
+	sharedMount := cfg.Class == "one-config-value" && t.Chance(1, 2)
+	if sharedMount {
+		o.ReaddirHeavy = true
+		res.Stat("probe.one_config_value_with_a_directory_mount_only_listed", 1)
+	}
 	pa := plan.Generate(t, o)
 	pa.Name = "pa"
 	pb := plan.Generate(t, o)
 	pb.Name = "pb"
+	if sharedMount {
+		for _, p := range []*plan.Plan{pa, pb} {
+			for fi := range p.Funcs {
+				for ai, a := range p.Funcs[fi].Atoms {
+					if a.K == plan.AOpen || a.K == plan.AClose {
+						// nothing is created in the shared directory
+						p.Funcs[fi].Atoms[ai] = plan.Atom{K: plan.AReaddir, A: int32(tape.Pick(t, []int{24, 40, 64, 100})), B: int32(t.Choose(3))}
+					}
+				}
+			}
+		}
+	}
 	bins := [][]byte{pa.Encode(), pb.Encode()}
 	plans := []*plan.Plan{pa, pb}
 	n := t.Range(2, 4)
@@ -333,8 +363,20 @@ func (c11) Run(t *tape.Tape, cfg sim.Config) (res sim.Result) {
 	os.MkdirAll(filepath.Join(root, "lone"), 0o755)
 	w := &world{ctx: ctx, sched: true, populate: populate}
 	oneConfig := cfg.Class == "one-config-value"
+	var sharedDir string
+	if sharedMount {
+		sharedDir = filepath.Join(root, "shared")
+		os.MkdirAll(sharedDir, 0o755)
+		for k := 0; k < 12; k++ {
+			os.WriteFile(filepath.Join(sharedDir, fmt.Sprintf("shared-entry-%02d", k)), nil, 0o644)
+		}
+	}
 	if oneConfig {
 		w.oneConfig = wazero.NewModuleConfig().WithName("")
+		if sharedMount {
+			w.oneConfig = w.oneConfig.WithFSConfig(wazero.NewFSConfig().WithDirMount(sharedDir, "/"))
+			w.listedOnly = true
+		}
 	}
 	if t.Chance(1, 2) {
 		f, err := os.CreateTemp(root, "shared-log-*")
@@ -454,6 +496,10 @@ func (c11) Run(t *tape.Tape, cfg sim.Config) (res sim.Result) {
 		lw := &world{ctx: ctx, populate: populate}
 		if oneConfig {
 			lw.oneConfig = wazero.NewModuleConfig().WithName("")
+			if sharedMount {
+				lw.oneConfig = lw.oneConfig.WithFSConfig(wazero.NewFSConfig().WithDirMount(sharedDir, "/"))
+				lw.listedOnly = true
+			}
 		}
 		defer func() {
 			for _, f := range lw.files {
